@@ -24,7 +24,7 @@ instance (r : Rec) : Decidable (WellFormedRecord r) := by unfold WellFormedRecor
 
 /-- the one-character frequency rule of the compiler -/
 def zeroFreq (keep : Bool) (r : Rec) : Rec :=
-  if r.phrase.length == cliWordLen && !keep then { r with freq := cliWordFreq } else r
+  if r.phrase.length == 1 && !keep then { r with freq := 0 } else r
 
 theorem wellFormed_iff {r : Rec} : WellFormedRecord r ↔
     (r.phrase ≠ [] ∧ r.phrase.head? ≠ some cliQuote ∧ r.phrase.getLast? ≠ some cliQuote ∧
@@ -156,19 +156,17 @@ theorem parseLine_joined (delim d j : Nat) (keep : Bool) (r : Rec) (h : WellForm
     trimQ_of_noquote (fun c hc => (isDigit_not_sep (dd c hc)).2.1)
   unfold parseLine
   simp only [t1, t2]
-  have hsk : cliSylSkip = 2 := rfl
-  simp only [hsk, List.drop_succ_cons, List.drop_zero, parseSyls_spell r.syls hsyl, tp]
+  simp only [List.drop_succ_cons, List.drop_zero, parseSyls_spell r.syls hsyl, tp]
   have hfreq : parseFreq keep r.phrase
       (r.phrase :: decimal r.freq :: tokens (· == d) (joinWith [j] (r.syls.map spell)))
       = .ok (zeroFreq keep r).freq := by
     unfold parseFreq zeroFreq
-    by_cases hw : (r.phrase.length == cliWordLen && !keep) = true
+    by_cases hw : (r.phrase.length == 1 && !keep) = true
     · simp [hw]
-    · have hff : cliFreqField = 1 := rfl
-      simp [hw, hff, td, parseU32_decimal hf]
+    · simp [hw, td, parseU32_decimal hf]
   simp only [hfreq]
   unfold zeroFreq
-  by_cases hw : (r.phrase.length == cliWordLen && !keep) = true
+  by_cases hw : (r.phrase.length == 1 && !keep) = true
   · simp [hw]
   · simp [hw]
 
